@@ -49,6 +49,23 @@ Besides the write-path x spec-vocabulary drivers and the history drivers:
     schema re-applied to a plain copy accepts it; the template and instances of
     the base class keep satisfying the base schema.  And the instances of a
     boilerplate class go through every object write path like any other class.
+  * drv_pretyped_values: the written value is a pg.Dict / pg.List that already
+    carries a value spec S2 of its own (or a plain container holding one).  For
+    every location spec S1 of a container vocabulary, S2 ranges over the specs
+    of the same shape that differ from S1 in exactly one respect, at any depth
+    (weaker_specs: a bound / regex / enum member dropped, frozen at an outside
+    value, noneable added, a list size bound dropped, the keys of two members
+    exchanged while the sequence of value specs is kept, one more key, wider
+    dynamic-key pattern or value, one more union candidate), with a value S2
+    accepts and S1 (by the model) rejects.  Whatever the value claims, the
+    write must raise and leave the state unchanged.
+  * drv_ref_values: the written value is pg.Ref(v) for every kind of referent
+    (plain list, plain dict, pg.List, pg.Dict, typed ones, pg.Object), valid and
+    invalid for the location spec, directly and one level inside a plain
+    container.  The location stands for v (plain() reads a Ref as its referent):
+    a reference to a value the spec rejects must raise and leave the state
+    unchanged; after an accepted reference the model and the re-applied spec
+    must accept the state.
 
 Class definitions / spec objects of a subject are shared between the runs of
 that subject for speed; every failure is re-confirmed on a completely fresh
@@ -72,7 +89,14 @@ def is_missing(v):
 
 
 def plain(v):
-  """Plain, comparable image of a stored value (same function as in witnesses)."""
+  """Plain, comparable image of a stored value (same function as in witnesses).
+
+  A pg.Ref stands for the value it refers to (what reading the field returns);
+  a referenced plain list/dict is descended into."""
+  if isinstance(v, pg.Ref):
+    v = v.value
+    if not isinstance(v, pg.Symbolic):
+      return _dp(v)
   if isinstance(v, pg.Object):
     return (type(v).__name__, plain(v.sym_init_args))
   if isinstance(v, pg.Dict):
@@ -84,6 +108,8 @@ def plain(v):
 
 def _dp(v):
   """Like plain(), but also descends into raw dict/list/tuple (driver only)."""
+  if isinstance(v, pg.Ref):
+    v = v.value
   if isinstance(v, pg.Object):
     return (type(v).__name__, _dp(v.sym_init_args))
   if isinstance(v, pg.Dict):
@@ -99,6 +125,8 @@ def _dp(v):
 
 def unsym(v, objs):
   """Plain copy for re-application of the real spec; objects kept, collected."""
+  if isinstance(v, pg.Ref):
+    v = v.value
   if isinstance(v, pg.Dict):
     return {k: unsym(c, objs) for k, c in v.sym_items()}
   if isinstance(v, pg.List):
@@ -119,6 +147,14 @@ PLAIN_SRC = '''def plain(v):
  if isinstance(v,pg.Object):return(type(v).__name__,plain(v.sym_init_args))
  if isinstance(v,pg.Dict):return{k:plain(c)for k,c in v.sym_items()}
  if isinstance(v,pg.List):return[plain(c)for c in v.sym_values()]
+ return v'''
+PLAIN_SRC_REF = '''def plain(v):
+ if isinstance(v,pg.Ref):v=v.value
+ if isinstance(v,pg.Object):return(type(v).__name__,plain(v.sym_init_args))
+ if isinstance(v,pg.Dict):return{k:plain(c)for k,c in v.sym_items()}
+ if isinstance(v,pg.List):return[plain(c)for c in v.sym_values()]
+ if isinstance(v,dict):return{k:plain(c)for k,c in v.items()}
+ if isinstance(v,list):return[plain(c)for c in v]
  return v'''
 RUN_SRC = '''def run(s):
  try:exec(s,globals())
@@ -163,6 +199,9 @@ class Desc:
     if v is None:
       return self.noneable
     return self._ok(v, partial)
+
+
+_STRUCT_KEYS = ('elem', 'lo', 'hi', 'fields', 'cls_name', 'elems', 'cands', 'wider')
 
 
 def _isint(v):
@@ -302,9 +341,11 @@ def d_tuple(elems):
   for i, e in enumerate(elems):
     for lab, s in e.invalid[:2]:
       invalid.append((f'bad-element:{lab}', tup(ev[:i] + [s] + ev[i + 1:])))
-  return Desc('Tuple(' + ','.join(e.name for e in elems) + ')',
-              'T.Tuple([' + ', '.join(e.src for e in elems) + '])', ok, valid, invalid,
-              pre=''.join(e.pre for e in elems))
+  d = Desc('Tuple(' + ','.join(e.name for e in elems) + ')',
+           'T.Tuple([' + ', '.join(e.src for e in elems) + '])', ok, valid, invalid,
+           pre=''.join(e.pre for e in elems))
+  d.elems = list(elems)
+  return d
 
 
 def _field_src(key, d):
@@ -429,15 +470,17 @@ def d_union(cands):
         continue
       if not any(o.ok(plain(val)) for o in cands) and (lab, s) not in invalid:
         invalid.append((lab, s))
-  return Desc('Union(' + ','.join(c.name for c in cands) + ')',
-              'T.Union([' + ', '.join(c.src for c in cands) + '])', ok, valid, invalid,
-              pre=''.join(c.pre for c in cands))
+  d = Desc('Union(' + ','.join(c.name for c in cands) + ')',
+           'T.Union([' + ', '.join(c.src for c in cands) + '])', ok, valid, invalid,
+           pre=''.join(c.pre for c in cands))
+  d.cands = list(cands)
+  return d
 
 
 def noneable(d):
   n = Desc(d.name + '?', d.src + '.noneable()', d._ok,  # pylint: disable=protected-access
            d.valid + [('None', 'None')], [t for t in d.invalid if t[1] != 'None'], pre=d.pre)
-  n.__dict__.update({k: v for k, v in d.__dict__.items() if k in ('elem', 'lo', 'hi', 'fields', 'cls_name')})
+  n.__dict__.update({k: v for k, v in d.__dict__.items() if k in _STRUCT_KEYS})
   n.noneable = True
   n.has_default, n.default = True, None
   return n
@@ -446,7 +489,7 @@ def noneable(d):
 def with_default(d, value_src):
   src = d.src[:-1] + (', ' if not d.src[:-1].endswith('(') else '') + f'default={value_src})'
   n = Desc(d.name + f'={value_src}', src, d._ok, d.valid, d.invalid, pre=d.pre)  # pylint: disable=protected-access
-  n.__dict__.update({k: v for k, v in d.__dict__.items() if k in ('elem', 'lo', 'hi', 'fields', 'cls_name', 'noneable')})
+  n.__dict__.update({k: v for k, v in d.__dict__.items() if k in _STRUCT_KEYS + ('noneable',)})
   n.has_default = True
   n.default = plain(eval(value_src, dict(_ENV)))  # pylint: disable=eval-used
   return n
@@ -520,7 +563,7 @@ def modified(base, none=False, default=None, freeze=None):
     invalid = [(lab, s) for lab, s in others if not _same_value(s, dflt_src, base.pre)]
     valid = [('frozen-value', dflt_src)]
   n = Desc(name, src, base._ok, valid, invalid, pre=base.pre)  # pylint: disable=protected-access
-  n.__dict__.update({k: v for k, v in base.__dict__.items() if k in ('elem', 'lo', 'hi', 'fields', 'cls_name')})
+  n.__dict__.update({k: v for k, v in base.__dict__.items() if k in _STRUCT_KEYS})
   n.noneable = can_none
   n.has_default, n.default, n.default_src = has_default, dflt, dflt_src
   n.frozen = freeze is not None
@@ -697,11 +740,16 @@ class Run:
 
   def witness(self, op_src, check):
     s = self.sub
-    lines = ['import pyglove as pg', 'T=pg.typing;M=pg.MISSING_VALUE;Ins=pg.Insertion;NC=dict(raise_on_no_change=False)', PLAIN_SRC,
+    has_ref = 'pg.Ref(' in op_src or any('pg.Ref(' in p for p in self.prefix)
+    lines = ['import pyglove as pg', 'T=pg.typing;M=pg.MISSING_VALUE;Ins=pg.Insertion;NC=dict(raise_on_no_change=False)',
+             PLAIN_SRC_REF if has_ref else PLAIN_SRC,
              RUN_SRC_PARTIAL if s.scope_partial else RUN_SRC, self._setup_for(op_src)]
     lines += [f'run({p!r})' for p in self.prefix]
     lines += ['before=plain(root)', f'raised=run({op_src!r})', check]
-    return '\n'.join(lines)
+    w = '\n'.join(lines)
+    if len(w) > 1190:       # Recorder keeps 1200 characters: drop the optional blanks of the sources
+      w = w.replace(', ', ',').replace(': ', ':').replace('  allow_symbolic_assignment = True\n', '  pass\n')   # (the default)
+    return w
 
   def _setup_for(self, op_src):
     setup = self.sub.setup
@@ -949,6 +997,8 @@ def list_ops(sub, n, elem_samples):
       op['cid'] = f'{kindname}.write/partial-symbolic-value-into-non-partial'   # one input class, any path
     if bad and 'symbolic-wider-spec' in bad[0]:
       op['cid'] = f'{kindname}.write/symbolic-value-typed-with-wider-spec'       # one input class, any path
+    if bad and bad[0].startswith(_CARRIED):
+      op['cid'] = f'{kindname}.write/{_carried_class(bad[0])}'                   # one input class, any path
     if batch:
       g = _list_batch_ok(sum(1 for _, _, v in vals if v))
       op['batch_ok'] = lambda b, a, g=g: _on_x(sub, b, a, g)
@@ -1155,6 +1205,16 @@ def drv_list_histories(tier, seed):
   return rec.result()
 
 
+_CARRIED = ('pretyped:', 'ref-to:')     # labels of drv_pretyped_values / drv_ref_values samples
+
+
+def _carried_class(label):
+  """Case-id class of such a sample: how the value's own claim relates to the
+  location's spec / what is referenced; where in the value it sits (@member,
+  @nested, /in-plain-<container>) is the same mechanism and stays in the message."""
+  return label.split('/')[0].split('@')[0]
+
+
 _MISSING_DELETES = {'setitem-MISSING', 'rebind-delete', 'rebind-multi-delete', 'setitem-slice-delete',
                     'setitem-slice-clear', 'setitem-slice-shrink', 'delitem-slice'}
 
@@ -1174,10 +1234,15 @@ def _dict_schema(fd):
           ('r', d_int(0, 5)), (('re', '^x.*'), d_int(0, 5))]
 
 
-def dict_subject(fd, where='top', mode='full'):
+def _slim_schema(fd):
+  """f under test, the batch partner g and the required r: nothing else."""
+  return [('f', fd), ('g', with_default(d_int(), '1')), ('r', d_int(0, 5))]
+
+
+def dict_subject(fd, where='top', mode='full', schema=_dict_schema):
   """mode: full | partial (f and r missing) | scope (ops under allow_partial)."""
-  fields = _dict_schema(fd)
-  dd = d_dict(fields, name=f'Dict(f:{fd.name},g=1,h!7,r,x*)')
+  fields = schema(fd)
+  dd = d_dict(fields, name=f'Dict(f:{fd.name},g=1,h!7,r,x*)' if schema is _dict_schema else f'Dict(f:{fd.name},g=1,r)')
   if fd.frozen:
     init_items = '"r":1'
   else:
@@ -1200,8 +1265,8 @@ def dict_subject(fd, where='top', mode='full'):
   raise ValueError(where)
 
 
-def object_subject(fd, where='top', mode='full'):
-  fields = [(k, d) for k, d in _dict_schema(fd) if not isinstance(k, tuple)]
+def object_subject(fd, where='top', mode='full', schema=_dict_schema):
+  fields = [(k, d) for k, d in schema(fd) if not isinstance(k, tuple)]
   od = d_object('Obj', fields)
   partial = mode == 'partial'
   if partial:
@@ -1255,6 +1320,9 @@ class _OpList:
       op['cid'] = f'{kind}.write/partial-symbolic-value-into-non-partial'   # one input class, any path
     if why and 'symbolic-wider-spec' in why:
       op['cid'] = f'{kind}.write/symbolic-value-typed-with-wider-spec'       # one input class, any path
+    m = re.search(r'\(((?:pretyped:|ref-to:)[^()]*)\)$', why or '')
+    if m:
+      op['cid'] = f'{kind}.write/{_carried_class(m.group(1))}'               # one input class, any path
     if batch is not None:
       g = _dict_batch_ok(batch)
       op['batch_ok'] = lambda b, a, g=g: _on_x(sub, b, a, g)
@@ -2228,9 +2296,405 @@ def drv_boilerplate_object_writes(tier, seed):
   return rec.result()
 
 
+# ---------------------------------------------------------------------------
+# Values that reach a typed location *with a claim of their own*:
+#   * a pg.Dict / pg.List that already carries a value spec S2 (it was validated
+#     against S2, not against the spec S1 of the location it is written to);
+#   * a pg.Ref: the location stands for the referenced value.
+# The statement does not know these short cuts: whatever the value claims, the
+# location may only end up holding what S1 accepts.
+# ---------------------------------------------------------------------------
+
+def _kind(d):
+  for attr, k in (('elem', 'list'), ('cls_name', 'object'), ('fields', 'dict'), ('elems', 'tuple'), ('cands', 'union')):
+    if hasattr(d, attr):
+      return k
+  return 'leaf'
+
+
+def _env_for(d):
+  env = dict(_ENV)
+  if d.pre:
+    _exec(d.pre, env)
+  return env
+
+
+def _lit(pairs):
+  return '{' + ', '.join(f'{k!r}: {s}' for k, s in pairs) + '}'
+
+
+def _tup(parts):
+  return '(' + ', '.join(parts) + (',)' if len(parts) == 1 else ')')
+
+
+def _list_args(elem_src, lo, hi):
+  return elem_src + (f', min_size={lo}' if lo else '') + (f', max_size={hi}' if hi is not None else '')
+
+
+def weaker_specs(d):
+  """[(relation class, depth, source of a spec S2, source of a plain value)]:
+  specs S2 of the same shape as d's that differ from it in ONE respect, each
+  with a value S2 accepts and d (by the model) rejects.  depth: how many
+  container levels below the top of the spec the difference sits.
+
+  Relation classes: a leaf constraint dropped (no-max / no-min / no-regex /
+  more-members), the same with S2 frozen at the outside value, noneable added,
+  a list bound dropped, the keys of two dict members exchanged (same keys,
+  same sequence of value specs), one more declared key, a wider dynamic-key
+  pattern, a weaker dynamic-key value spec, a base class, one more / a weaker
+  union candidate."""
+  if d.frozen:
+    return []
+  out, kind = [], _kind(d)
+  if kind == 'leaf':
+    for lab, wsrc, wbad in d.wider:
+      out.append((lab, 0, wsrc, wbad))
+      out.append((lab + '-frozen', 0, f'{wsrc}.freeze({wbad})', wbad))
+  elif kind == 'list':
+    e, lo, hi = d.elem, d.lo, d.hi
+    ev = [s for _, s in e.valid]
+    n = max(lo, 1)
+    for cls, dep, w, b in weaker_specs(e):
+      out.append((cls, dep + 1, f'T.List({_list_args(w, lo, hi)})', '[' + ', '.join([ev[0]] * (n - 1) + [b]) + ']'))
+    if hi is not None:
+      out.append(('no-max-size', 0, f'T.List({_list_args(e.src, lo, None)})', '[' + ', '.join((ev * 8)[:hi + 1]) + ']'))
+    if lo:
+      out.append(('no-min-size', 0, f'T.List({_list_args(e.src, 0, hi)})', '[' + ', '.join((ev * 8)[:lo - 1]) + ']'))
+  elif kind == 'dict':
+    fields = d.fields
+    consts = [(k, dd) for k, dd in fields if not isinstance(k, tuple)]
+    req = [(k, dd.valid[0][1]) for k, dd in consts if not dd.has_default]
+    def spec(repl, extra=()):
+      parts = [repl[k] if k in repl else _field_src(k, dd) for k, dd in fields]
+      return 'T.Dict([' + ', '.join(parts + list(extra)) + '])'
+    def value(over):
+      return _lit([(k, s) for k, s in req if k not in over] + list(over.items()))
+    for k0, d0 in consts:
+      for cls, dep, w, b in weaker_specs(d0):
+        out.append((cls, dep + 1, spec({k0: f'({k0!r}, {w})'}), value({k0: b})))
+    env = _env_for(d)
+    live = [(k, dd) for k, dd in consts if not dd.frozen]
+    for i, (ki, di) in enumerate(live):
+      for kj, dj in live[i + 1:]:
+        # S2: ki governed by dj's spec and kj by di's, declared at each other's place
+        for (ka, da), (kb, db) in (((ki, di), (kj, dj)), ((kj, dj), (ki, di))):
+          # a value db accepts and da rejects (models), from the samples of both
+          pick = [sv for _, sv in db.valid + da.invalid
+                  if not da.ok(plain(_eval(sv, env))) and db.ok(plain(_eval(sv, env)))]
+          if pick:
+            # when db is a weakening of da in a respect that has a class of its
+            # own (Str without the regex, Int without the bound), that respect
+            # is part of the class: the exchange then relies on it as well
+            same = da.name.split('[')[0].split('(')[0] == db.name.split('[')[0].split('(')[0]
+            resp = [lab for lab, _, wbad in da.wider if same and db.ok(plain(_eval(wbad, env)))]
+            out.append(('keys-exchanged' + (f'+{resp[0]}' if resp else ''), 0, spec({ka: f'({kb!r}, {da.src})', kb: f'({ka!r}, {db.src})'}),
+                        value({ka: pick[0], kb: da.valid[0][1]})))
+            break
+    out.append(('one-more-key', 0, spec({}, ["('zz', T.Int())"]), value({'zz': '1'})))
+    for k, dd in fields:
+      if isinstance(k, tuple):
+        out.append(('wider-key-pattern', 0, spec({k: f'(T.StrKey(), {dd.src})'}), value({'y1': dd.valid[0][1]})))
+        for cls, dep, w, b in weaker_specs(dd):
+          out.append((cls, dep + 1, spec({k: f'(T.StrKey({k[1]!r}), {w})'}), value({'x1': b})))
+  elif kind == 'tuple':
+    ev = [e.valid[0][1] for e in d.elems]
+    for i, e in enumerate(d.elems):
+      for cls, dep, w, b in weaker_specs(e):
+        out.append((cls, dep + 1, 'T.Tuple([' + ', '.join(w if j == i else x.src for j, x in enumerate(d.elems)) + '])',
+                    _tup(ev[:i] + [b] + ev[i + 1:])))
+  elif kind == 'object':
+    out.append(('base-class', 0, 'T.Object(pg.Object)', f'{d.cls_name}Other()'))
+  elif kind == 'union':
+    for i, c in enumerate(d.cands):
+      for cls, dep, w, b in weaker_specs(c):
+        out.append((cls, dep + 1, 'T.Union([' + ', '.join(w if j == i else x.src for j, x in enumerate(d.cands)) + '])', b))
+    out.append(('one-more-candidate', 0, 'T.Union([' + ', '.join([x.src for x in d.cands] + ['T.Tuple([T.Bool()])']) + '])', '(True,)'))
+  if not d.noneable and kind != 'union':
+    out.append(('noneable', 0, d.src + '.noneable()', 'None'))
+  # keep what the model of d really rejects and the real S2 really accepts
+  env, keep = _env_for(d), []
+  for cls, dep, w, b in out:
+    try:
+      if d.ok(plain(_eval(b, env))):
+        continue
+      _eval(w, env).apply(_eval(b, env))
+    except Exception:  # pylint: disable=broad-except
+      continue
+    keep.append((cls, dep, w, b))
+  return keep
+
+
+def pretyped_samples(d, per_class=None):
+  """[(label, value source)]: values d's spec rejects (model) that arrive as, or
+  contain, a pg.Dict / pg.List bound to a weaker spec of the same shape.
+  Label = pretyped:<relation class>[@nested][/in-plain-<container>]."""
+  out, kind = [], _kind(d)
+  if d.frozen:
+    return out
+  if kind in ('list', 'dict'):
+    ctor = 'pg.List' if kind == 'list' else 'pg.Dict'
+    for cls, dep, w, b in weaker_specs(d):
+      if b != 'None':
+        out.append((f'pretyped:{cls}' + ('@nested' if dep > 1 else '@member' if dep else ''), f'{ctor}({b},value_spec={w})'))
+  inner = []
+  if kind == 'list':
+    ev = [s for _, s in d.elem.valid]
+    n = max(d.lo, 1)
+    inner = [(lab, '[' + ', '.join([ev[0]] * (n - 1) + [c]) + ']', 'list') for lab, c in pretyped_samples(d.elem)]
+  elif kind == 'dict':
+    consts = [(k, dd) for k, dd in d.fields if not isinstance(k, tuple)]
+    req = [(k, dd.valid[0][1]) for k, dd in consts if not dd.has_default]
+    for k0, d0 in consts:
+      inner += [(lab, _lit([(k, s) for k, s in req if k != k0] + [(k0, c)]), 'dict') for lab, c in pretyped_samples(d0)]
+  elif kind == 'tuple':
+    ev = [e.valid[0][1] for e in d.elems]
+    for i, e in enumerate(d.elems):
+      inner += [(lab, _tup(ev[:i] + [c] + ev[i + 1:]), 'tuple') for lab, c in pretyped_samples(e)]
+  elif kind == 'union':
+    for c in d.cands:
+      inner += [(lab, s, None) for lab, s in pretyped_samples(c)]
+  env = _env_for(d)
+  for lab, s, cont in inner:
+    try:
+      if d.ok(plain(_eval(s, env))):
+        continue
+    except Exception:  # pylint: disable=broad-except
+      continue
+    out.append((lab if cont is None or '/in-plain-' in lab else f'{lab}/in-plain-{cont}', s))
+  if per_class:
+    seen = {}
+    out = [t for t in out if seen.setdefault(t[0], []).append(t) or len(seen[t[0]]) <= per_class]
+  return out
+
+
+_REF_EXTRAS = ["[1]", "{'k': 1}", 'pg.List([1])', 'pg.Dict(k=1)', 'pg.DNA(1)']
+
+
+def _referent_kind(v):
+  if isinstance(v, pg.List):
+    return 'typed-pg.List' if v.value_spec is not None else 'pg.List'
+  if isinstance(v, pg.Dict):
+    return 'typed-pg.Dict' if v.value_spec is not None else 'pg.Dict'
+  if isinstance(v, pg.Object):
+    return 'pg.Object'
+  if isinstance(v, list):
+    return 'plain-list'
+  if isinstance(v, dict):
+    return 'plain-dict'
+  return None
+
+
+def ref_samples(d, per_kind=2, nested=True):
+  """[(label, value source, valid)]: pg.Ref(v) for every list / dict / symbolic
+  sample v of d (valid or not as v is) plus one referent of each kind d may
+  never have seen; and the same one level inside a plain container value.
+  Label = ref-to:<kind of the referenced value>[/in-plain-<container>].
+  A valid referent is complete (nothing for the spec to fill in)."""
+  env = _env_for(d)
+  out, count = [], {}
+  def consider(s, claimed):
+    try:
+      v = _eval(s, env)
+      rk = _referent_kind(v)
+      if rk is None:
+        return
+      valid = bool(d.ok(plain(v))) and not is_missing(plain(v))
+    except Exception:  # pylint: disable=broad-except
+      return
+    if claimed is not None and valid != claimed:
+      return            # e.g. a value the spec completes with defaults: not "maps to itself"
+    if valid and d.frozen:
+      return
+    n = count.setdefault((rk, valid), 0)
+    if n >= per_kind:
+      return
+    count[(rk, valid)] = n + 1
+    out.append((f'ref-to:{rk}', f'pg.Ref({s})', valid))
+  for lab, s in d.invalid:
+    if 'missing-required' not in lab:     # acceptable where partial values are: not an input class of its own here
+      consider(s, False)
+  for s in _REF_EXTRAS:
+    consider(s, None)
+  for _, s in d.valid:
+    consider(s, True)
+  # a valid sample must be complete: re-applying the model to what the spec
+  # would store is the identity only then (defaults are not filled into a
+  # referenced value)
+  kind = _kind(d)
+  if kind in ('dict', 'list', 'object'):
+    out = [t for t in out if not t[2] or _complete(d, _eval(t[1][7:-1], env))]
+  if nested and not d.frozen:
+    if kind == 'list':
+      ev = [s for _, s in d.elem.valid]
+      n = max(d.lo, 1)
+      for lab, s, valid in ref_samples(d.elem, 1, False):
+        out.append((lab + '/in-plain-list', '[' + ', '.join([ev[0]] * (n - 1) + [s]) + ']', valid))
+    elif kind == 'dict':
+      consts = [(k, dd) for k, dd in d.fields if not isinstance(k, tuple)]
+      req = [(k, dd.valid[0][1]) for k, dd in consts if not dd.has_default]
+      for k0, d0 in consts:
+        if d0.frozen:
+          continue
+        for lab, s, valid in ref_samples(d0, 1, False):
+          out.append((lab + '/in-plain-dict', _lit([(k, x) for k, x in req if k != k0] + [(k0, s)]), valid))
+    elif kind == 'tuple':
+      ev = [e.valid[0][1] for e in d.elems]
+      for i, e in enumerate(d.elems):
+        for lab, s, valid in ref_samples(e, 1, False):
+          out.append((lab + '/in-plain-tuple', _tup(ev[:i] + [s] + ev[i + 1:]), valid))
+  return out
+
+
+def _complete(d, v):
+  """Whether every declared const key of every dict level of v is present."""
+  kind = _kind(d)
+  if v is None or is_missing(v):
+    return True
+  if kind == 'list':
+    return all(_complete(d.elem, e) for e in v)
+  if kind in ('dict', 'object'):
+    items = dict(v.sym_init_args.sym_items()) if isinstance(v, pg.Object) else (
+        dict(v.sym_items()) if isinstance(v, pg.Dict) else v)
+    if not isinstance(items, dict):
+      return True
+    return all(k in items and _complete(dd, items[k]) for k, dd in d.fields if not isinstance(k, tuple))
+  return True
+
+
+def carried_vocabulary(tier):
+  """Container specs whose values can carry a spec of their own, at 1..3 levels."""
+  i05 = d_int(0, 5)
+  pq = d_dict([('p', i05), ('q', with_default(d_str(), "'d'"))], name='Dict(p,q=d)')
+  ab = d_dict([('a', d_int(0, None)), ('b', d_int())], name='Dict(a>=0,b)')
+  voc = [
+      ab,
+      pq,
+      d_dict([('a', d_str('^[a-c]+$')), ('m', with_default(d_float(0.0, 1.0), '0.5')), ('b', d_str())], name='Dict(a:re,m=.5,b)'),
+      d_dict([(('re', '^x.*'), i05), ('k', with_default(d_int(), '0'))], name='Dict(x*,k=0)'),
+      d_list(i05, 1, 2),
+      d_list(d_enum(), 0, None),
+      d_list(pq, 0, 2),
+      d_dict([('n', ab), ('m', noneable(d_list(i05, 0, 1)))], name='Dict(n{a,b},m?)'),
+      d_union([d_bool(), d_list(i05, 0, 1), pq]),
+      d_tuple([i05, ab]),
+      noneable(ab),
+  ]
+  if tier != 'quick':
+    voc += [
+        d_list(d_list(i05, 0, 2), 0, 2),
+        d_list(d_tuple([d_str(), ab]), 0, 2),
+        d_dict([('o', d_dict([('n', ab), ('k', with_default(d_int(), '0'))], name='Dict(n{a,b},k=0)'))], name='Dict(o{n{a,b},k})'),
+        d_list(d_union([i05, pq]), 0, 2),
+        with_default(d_list(i05, 0, 2), '[]'),
+        d_dict([(('re', '^x.*'), ab)], name='Dict(x*:{a,b})'),
+    ]
+  return voc
+
+
+def _with_samples(fd, valid, invalid):
+  n = Desc(fd.name, fd.src, fd._ok, valid, invalid, pre=fd.pre)  # pylint: disable=protected-access
+  keep = dict(n.__dict__)
+  n.__dict__.update(fd.__dict__)
+  n.valid, n.invalid = keep['valid'], keep['invalid']
+  n.fragile_default = False
+  return n
+
+
+def _carried_driver(rec, tier, voc, samples_of, object_too=True):
+  """Field f of a typed Dict / of a pg.Object and element of a typed List carry
+  spec fd; the samples are aimed at them through every write path."""
+  for fi, fd in enumerate(voc):
+    valid, invalid = samples_of(fd)
+    if not invalid and len(valid) <= 1:
+      continue
+    sd = _with_samples(fd, valid, invalid)
+    subjects = [(dict_subject(sd, 'top', 'full', _slim_schema), 'top')]
+    if object_too and not fd.name.startswith('Object('):
+      subjects.append((object_subject(sd, 'top', 'full', _slim_schema), 'top'))
+    if tier != 'quick' or fi % 4 == 0:
+      subjects.append((dict_subject(sd, 'list', 'full', _slim_schema), 'list'))
+    if tier != 'quick' or fi % 4 == 2:
+      subjects.append((dict_subject(sd, 'object', 'full', _slim_schema), 'object'))
+    if tier != 'quick' or fi % 4 == 1:
+      subjects.append((dict_subject(sd, 'top', 'scope', _slim_schema), 'scope'))
+    for sub, where in subjects:
+      extra = None
+      if where == 'top' and sub.kind == 'dict' and _kind(fd) in ('list', 'dict'):
+        # the whole value of a new typed container is taken from the sample
+        def extra(ops, sub=sub):
+          b = _OpList(sub, {}, ops)
+          ctor = 'pg.List' if _kind(fd) == 'list' else 'pg.Dict'
+          for lab, s in invalid:
+            if s.startswith(('pg.Dict(', 'pg.List(', 'pg.Ref(')):
+              b.add('ctor-whole', f'y={ctor}({s},value_spec=x.value_spec.schema.get_field("f").value)', 'invalid-value',
+                    f'invalid value ({lab})', result=sd)
+          return ops
+      _run_dict_like(rec, sub, sd, (fd.name, sub.kind, where), repeat=(tier != 'quick'), focus=True, ops_filter=extra)
+    if fd.frozen or (tier == 'quick' and fi % 2 and _kind(fd) == 'leaf'):
+      continue
+    samples = [(lab, s, True) for lab, s in valid] + [(lab, s, False) for lab, s in invalid]
+    for lo, hi, n0 in ((0, 3, 1), (1, 2, 2)) if tier != 'quick' else ((0, 3, 1),):
+      for where in ('top', 'object') if tier != 'quick' else ('top',) if fi % 4 != 3 else ('object',):
+        sub = list_subjects(fd, lo, hi, n0, where)
+        probe = Run(rec, sub)
+        if probe.dead:
+          continue
+        for op in list_ops(sub, len(probe.x), samples):
+          if op['cid'].endswith('/valid') and not any(s in op['src'] for _, s, _ in samples[1:]):
+            continue          # size-only operations: drv_list_writes
+          Run(rec, sub, repeat=(tier != 'quick')).step(op, (fd.name, 'elem', lo, hi, where, op['src']))
+
+
+def drv_pretyped_values(tier, seed):
+  """A pg.Dict / pg.List that is already bound to another spec is written to a
+  typed location: what the location ends up holding is governed by the
+  location's spec alone."""
+  del seed
+  voc = carried_vocabulary(tier)
+  rec = Recorder(
+      'C03', 'typed locations: a value that already carries its own value spec',
+      scope=f'{len(voc)} location specs (Dict with 2-3 members, dynamic keys, nested Dict 1-3 levels, List of Int/Enum/Dict/List/Tuple/Union, '
+            'Union and Tuple holding Dict/List, noneable Dict) x every spec S2 of the same shape that differs in one respect at any '
+            'depth (bound / regex / enum member dropped, frozen outside, noneable added, list size bound dropped, keys of two members '
+            'exchanged with the sequence of value specs kept, one more key, wider dynamic-key pattern, weaker dynamic-key value, one '
+            'more union candidate) x a value S2 accepts and the location spec rejects, as pg.Dict/pg.List(value, value_spec=S2) '
+            'directly or one level inside a plain list/dict/tuple; written to field f of a typed Dict (stand-alone, child of typed '
+            'List / Object, under allow_partial scope) and of a pg.Object and as element of a typed List through every write path of '
+            'drv_dict_writes / drv_object_writes / drv_list_writes; must raise and leave the state unchanged '
+            '(quick: one sample per relation class and location spec, nested subjects for every third spec)')
+  def samples_of(fd):
+    return fd.valid[:1], pretyped_samples(fd, per_class=1 if tier == 'quick' else None)
+  _carried_driver(rec, tier, voc, samples_of)
+  return rec.result()
+
+
+def drv_ref_values(tier, seed):
+  """pg.Ref(v) written to a typed location: the location stands for v, so v is
+  what the location's spec has to accept."""
+  del seed
+  voc = vocabulary(tier)
+  rec = Recorder(
+      'C03', 'typed locations: values written as pg.Ref',
+      scope=f'{len(voc)} location specs (the vocabulary of drv_dict_writes) x pg.Ref(v) for v = every plain list / plain dict / pg.List / '
+            'pg.Dict (untyped, typed) / pg.Object among the valid and invalid samples of the spec (2 per kind of referent and validity) '
+            'plus one referent of each kind for every spec ([1], {k:1}, pg.List, pg.Dict, a pg.Object), and the same one level inside '
+            'a plain list / dict / tuple value; written to field f of a typed Dict / pg.Object and as element of a typed List through '
+            'every write path; a reference to a value the spec rejects must raise and leave the state unchanged, an accepted '
+            'reference must leave a state the model and the re-applied spec accept (pg.Ref read as the value it refers to)')
+  if tier == 'quick':
+    # the ten scalar specs have the same referents: every other one in quick
+    voc = [fd for i, fd in enumerate(voc) if _kind(fd) != 'leaf' or i % 2 == 0]
+  def samples_of(fd):
+    rs = ref_samples(fd, per_kind=1 if tier == 'quick' else 2)
+    return fd.valid[:1] + [(lab, s) for lab, s, v in rs if v], [(lab, s) for lab, s, v in rs if not v]
+  _carried_driver(rec, tier, [fd for fd in voc], samples_of)
+  return rec.result()
+
+
 DRIVERS = [drv_list_writes, drv_list_histories, drv_dict_writes, drv_object_writes, drv_dict_histories,
            drv_spec_modifiers_dict, drv_spec_modifiers_object, drv_dict_resets, drv_object_resets,
-           drv_boilerplate_template_isolation, drv_boilerplate_object_writes]
+           drv_boilerplate_template_isolation, drv_boilerplate_object_writes,
+           drv_pretyped_values, drv_ref_values]
 
 
 def replay(rec):
